@@ -549,7 +549,10 @@ theorem apply_dims (t : ATerm) (cmd : Cmd) : (t.apply cmd).w = t.w ∧ (t.apply 
       · simp
       · exact ⟨rfl, rfl⟩
     · exact ⟨rfl, rfl⟩
-  | insertChar => simp only [ATerm.apply]; split <;> exact ⟨rfl, rfl⟩
+  | insertChar =>
+    simp only [ATerm.apply]; split
+    · split <;> exact ⟨rfl, rfl⟩
+    · exact ⟨rfl, rfl⟩
   | goto x y => exact ⟨rfl, rfl⟩
   | setPen s => exact ⟨rfl, rfl⟩
   | hideCursor => exact ⟨rfl, rfl⟩
